@@ -29,6 +29,7 @@ import (
 
 	"verif/harness/hmain"
 	"verif/harness/hx"
+	"verif/harness/pipedrv"
 )
 
 // ---- recording controller -------------------------------------------------------------------
@@ -482,5 +483,11 @@ func c10Gen(c *hmain.Ctx) {
 func main() {
 	hmain.Run(&hmain.Prop{ID: "C10",
 		Rule: "boundary: all powers of two and their neighbours up to the ends of the Go types, all (index,partition) and (offset,epoch) pairs, and the 16 corners of the stated ranges inside/just outside; exhaustive: index<4 x partition<16 x offset<16 x epoch<4 and every one of the 65536 partition and epoch values; random tuples (70% inside the stated ranges over all bit lengths); unpacking of arbitrary bit patterns; random consume+Commit sequences (permuted completion order, repeats, omissions, duplicate topic names, epoch -1 / out-of-range components) on the real Commit + real kgo marks; raw events incl. topic index outside the list. Non-trivial = all four components positive and inside the ranges (pack), an in-range sequence with >= 3 Commit calls (commit), every unpack / raw case; distinct = distinct (sub-model, case) text.",
-		Gen:  c10Gen, Exec: c10Exec})
+		Gen: func(c *hmain.Ctx) {
+			c10Gen(c)
+			// frontier clause at pipeline level: a kafka-like input (UseSpread + DisableStreams) on the
+			// real pipeline; monitor = per-source (partition) commit frontier
+			pipedrv.GenFamilies(c, pipedrv.PipeWhich, []pipedrv.Fam{{Stream: "spread-frontier", Opts: pipedrv.FamSpread, N: 40}})
+		},
+		Exec: pipedrv.WrapExec(c10Exec)})
 }
